@@ -4,12 +4,16 @@ import (
 	"flag"
 	"fmt"
 	"os"
+	"runtime/debug"
+	"runtime/pprof"
 	"sort"
 	"strings"
+	"sync"
 	"time"
 )
 
 func main() {
+	debug.SetGCPercent(1000)
 	if len(os.Args) < 2 {
 		fmt.Fprintln(os.Stderr, "usage: govc <verify|check|selftest|relock> ...")
 		os.Exit(2)
@@ -38,6 +42,11 @@ func cmdVerify(args []string) {
 	verbose := fs.Bool("v", false, "verbose")
 	jobs := fs.Int("j", 16, "parallel solver jobs")
 	fs.Parse(args)
+	if pf := os.Getenv("GOVC_PROF"); pf != "" {
+		f, _ := os.Create(pf)
+		pprof.StartCPUProfile(f)
+		defer pprof.StopCPUProfile()
+	}
 	t0 := time.Now()
 	eng, err := LoadEngine(*repo)
 	if err != nil {
@@ -133,33 +142,90 @@ func firstLines(s string, n int) string {
 	return strings.Join(ls, "\n")
 }
 
-// prepareScripts renders SMT text sequentially (term banks are not
+// prepareScripts renders SMT text (one goroutine per term bank: banks are not
 // thread-safe) and drops term references.
 func prepareScripts(obls []*Obligation) {
+	byBank := map[*TermBank][]*Obligation{}
+	var banks []*TermBank
 	for _, o := range obls {
-		if st, ok := o.trivial(); ok {
-			o.Status = st
-			o.Solver = "simplifier"
-			o.smt = ""
-			o.done = true
-		} else {
-			func() {
-				defer func() {
-					if r := recover(); r != nil {
-						o.Status = "error"
-						o.Output = fmt.Sprint("engine panic while printing: ", r)
-						o.done = true
-					}
-				}()
-				o.smt = o.script()
-			}()
+		if _, ok := byBank[o.bank]; !ok {
+			banks = append(banks, o.bank)
 		}
-		o.GoalText = o.bank.Show(o.Goal)
-		o.Hyps, o.Goal, o.axioms, o.bank = nil, nil, nil, nil
+		byBank[o.bank] = append(byBank[o.bank], o)
 	}
+	ch := make(chan *TermBank)
+	var wg sync.WaitGroup
+	for w := 0; w < 16; w++ {
+		wg.Add(1)
+		go func() {
+			defer wg.Done()
+			for b := range ch {
+				batchSafety(b, byBank[b])
+				for _, o := range byBank[b] {
+					prepareOne(o)
+				}
+			}
+		}()
+	}
+	for _, b := range banks {
+		ch <- b
+	}
+	close(ch)
+	wg.Wait()
 }
 
-func cmdCheck(args []string) int {
-	fmt.Fprintln(os.Stderr, "check: not built yet")
-	return 2
+func prepareOne(o *Obligation) {
+	if st, ok := o.trivial(); ok {
+		o.Status = st
+		o.Solver = "simplifier"
+		o.smt = ""
+		o.done = true
+	} else {
+		func() {
+			defer func() {
+				if r := recover(); r != nil {
+					o.Status = "error"
+					o.Output = fmt.Sprint("engine panic while printing: ", r)
+					o.done = true
+				}
+			}()
+			o.smt = o.script()
+		}()
+	}
+	o.GoalText = o.bank.Show(o.Goal)
+	o.Hyps, o.Goal, o.axioms, o.bank = nil, nil, nil, nil
+}
+
+// batchSafety builds one combined query for all safety obligations of a case:
+// unsat of "some member fails" discharges every member at once.
+func batchSafety(b *TermBank, obls []*Obligation) {
+	var mem []*Obligation
+	for _, o := range obls {
+		if (o.Kind == "safety" || o.Kind == "call-pre") && !o.Cover {
+			if _, triv := o.trivial(); !triv {
+				mem = append(mem, o)
+			}
+		}
+	}
+	if len(mem) < 3 {
+		return
+	}
+	var alts []*Term
+	for _, o := range mem {
+		alts = append(alts, b.And(append(append([]*Term{}, o.Hyps...), b.Not(o.Goal))...))
+	}
+	batch := &Obligation{Name: mem[0].Func + ".safety-batch[" + mem[0].Case + "]", Kind: "batch", Func: mem[0].Func, Case: mem[0].Case, bank: b,
+		Goal: b.Not(b.Or(alts...)), axioms: mem[0].axioms, inputs: nil}
+	func() {
+		defer func() { recover() }()
+		batch.smt = batch.script()
+	}()
+	if batch.smt == "" {
+		return
+	}
+	batch.members = mem
+	mem[0].batch = batch
+	for _, o := range mem {
+		o.inBatch = batch
+	}
 }
